@@ -459,6 +459,10 @@ class Executor:
         m = re.match(r'(.*)::promoted\[(\d+)\]$', c)
         cands = None
         if m:
+            own = f"{frame.func.name}::promoted[{m.group(2)}]"
+            if own in self.prog.funcs:
+                cands = [self.prog.funcs[own]]
+        if m and not cands:
             # `const <fn path>::promoted[N]` : the promoted body is listed under "promoted[N] in <fn>"
             key = f"promoted[{m.group(2)}] in {m.group(1)}"
             cands = [fl for n, fl in self.prog.funcs.items() if n == key or strip_generics(n) == strip_generics(key)]
@@ -466,7 +470,7 @@ class Executor:
                 # match by suffix (paths may be printed relative)
                 cands = [fl for n, fl in self.prog.funcs.items() if n.startswith(f"promoted[{m.group(2)}] in ") and
                          strip_generics(n).endswith(strip_generics(m.group(1)).split('::', 1)[-1])]
-        else:
+        if not m:
             last = strip_generics(c).split('::')[-1]
             cands = [fl for n, fl in self.prog.funcs.items() if n.split('::')[-1] == last and not fl[0].args and fl[0].name == n and 'promoted' not in n]
         if not cands:
